@@ -205,7 +205,47 @@ pub fn load_scenario(path: &Path) -> Scenario {
 /// Replays a scenario file; prints what it found; returns the violations.
 pub fn replay(def: &PropDef, path: &Path, quiet: bool) -> Vec<Violation> {
     let sc = load_scenario(path);
-    let j = (def.judge)(&sc);
+    // the same watchdog as in a check: a replay of a non-terminating computation must report it,
+    // not hang
+    let j = {
+        let (tx, rx) = std::sync::mpsc::channel();
+        let sc2 = sc.clone();
+        let judge = def.judge;
+        std::thread::Builder::new()
+            .stack_size(256 << 20)
+            .spawn(move || {
+                super::core::WORKER.with(|c| c.set(0));
+                let _ = tx.send(judge(&sc2));
+            })
+            .expect("spawn");
+        let mut last = (super::core::HEARTBEAT[0].load(Ordering::Relaxed), Instant::now());
+        loop {
+            match rx.recv_timeout(std::time::Duration::from_millis(200)) {
+                Ok(j) => break j,
+                Err(std::sync::mpsc::RecvTimeoutError::Disconnected) => {
+                    println!("HARNESS-ERROR: the replay thread panicked");
+                    std::process::exit(2);
+                }
+                Err(_) => {
+                    let b = super::core::HEARTBEAT[0].load(Ordering::Relaxed);
+                    if b != last.0 {
+                        last = (b, Instant::now());
+                    }
+                    if last.1.elapsed().as_secs() >= 60 {
+                        println!("replay {}: {}", path.display(), sc.summary());
+                        println!("WATCHDOG: one simulated step has been running for 60 s (non-terminating computation inside the server)");
+                        println!("REPLAY-VIOLATION property=C02 clause=hang signature=hang watchdog :: a computation inside the server does not terminate");
+                        if def.id == "C02" {
+                            println!("VIOLATION property=C02 replay={}", path.display());
+                            std::process::exit(1);
+                        }
+                        println!("HARNESS-ERROR: watchdog fired in a {} replay (a C02 matter)", def.id);
+                        std::process::exit(2);
+                    }
+                }
+            }
+        }
+    };
     if !quiet {
         println!("replay {}: {}", path.display(), sc.summary());
         for n in &j.notes {
@@ -349,6 +389,7 @@ pub fn run_check(def: &PropDef, tier: Tier, seed: u64, max_items: Option<u64>) -
                         }
                     }
                     let _done = Done(done_workers, harness_panic);
+                    super::core::WORKER.with(|c| c.set(w.min(254)));
                     loop {
                         if stop.load(Ordering::Relaxed) || harness_panic.load(Ordering::Relaxed) {
                             break;
@@ -379,15 +420,25 @@ pub fn run_check(def: &PropDef, tier: Tier, seed: u64, max_items: Option<u64>) -
         // watchdog: a single poll that never returns (non-terminating analysis) is a C02 finding,
         // reported with the scenario that was executing
         let (watch, done_workers) = (&watch, &done_workers);
+        let mut beats: Vec<(u64, Instant)> = (0..workers).map(|_| (0, Instant::now())).collect();
         s.spawn(move || loop {
             std::thread::sleep(std::time::Duration::from_millis(200));
             if done_workers.load(Ordering::Relaxed) as usize >= workers {
                 break;
             }
-            for slot in watch.iter() {
+            for (w, slot) in watch.iter().enumerate() {
                 let g = slot.lock().unwrap();
                 if let Some((since, sc)) = g.as_ref() {
-                    if since.elapsed().as_secs() >= 60 {
+                    // fires only if the worker made no scheduler step (and finished no scenario)
+                    // for 60 s: a computation inside one poll, or inside an in-process analysis,
+                    // that does not return
+                    let beat = super::core::HEARTBEAT[w.min(254)].load(Ordering::Relaxed);
+                    let (last_beat, last_change) = &mut beats[w];
+                    if *last_beat != beat || *since > *last_change {
+                        *last_beat = beat;
+                        *last_change = Instant::now().max(*since);
+                    }
+                    if last_change.elapsed().as_secs() >= 60 {
                         let dir = verif_root().join("replays");
                         let _ = std::fs::create_dir_all(&dir);
                         let p = dir.join(format!("{}-hang-{}.json", sc.property, sc.seed));
